@@ -78,6 +78,7 @@ pub open spec fn verifiers_of(s: State) -> Map<Address, BigIntDe> { map2_decode:
         old(rt).msg.caller.proto == 0,     // the immediate caller is always addressed by ID (FVM)
         client.proto == 0,
     ensures
+        /*C11*/ r.is_ok() ==> verifiers_of(*old(st)).dom().contains(old(rt).msg.caller),
         r.is_ok() ==> ({
             let v0 = verifiers_of(*old(st));
             let v1 = verifiers_of(*final(st));
